@@ -29,7 +29,7 @@ def rmPc : Pc → Bool
 /-- The body of a wait form after the construction of the stop callback (loop, `cond_.wait`). -/
 def bodyPc : Pc → Bool
   | .predChk _ | .want | .sChk1 | .sStopped | .locked | .released | .enq _ | .unl _ _ | .susp _ | .slp _
-  | .wokeNL _ _ | .relk _ _ | .post _ | .relockU _ => true
+  | .wokeNL _ _ | .relk _ _ | .post _ | .relockU _ | .postS _ => true
   | _ => false
 
 /-- The callback runs on the registering thread (stop already requested). -/
@@ -74,7 +74,7 @@ def resAll : Pc → Option Nat
 structure Inv3 (s : St) : Prop where
   sHolder : ∀ t, holdsS (s.pc t) = true → s.sLock = some t
   sConv : ∀ r, s.sLock = some r → holdsS (s.pc r) = true ∧ r < s.n
-  keptOk : ∀ t, s.kept t = true → s.curOp t = .swait ∧ (bodyPc (s.pc t) = true ∨ dtorPc (s.pc t) = true)
+  keptOk : ∀ t, s.kept t = true → isStop (s.curOp t) = true ∧ (bodyPc (s.pc t) = true ∨ dtorPc (s.pc t) = true)
   dtorKept : ∀ t, dtorPc (s.pc t) = true → s.kept t = true
   cbsOk : ∀ t, t ∈ s.cbs → s.kept t = true ∧ s.cbFin t = false
   cbsNodup : s.cbs.Nodup
@@ -85,15 +85,15 @@ structure Inv3 (s : St) : Prop where
   curHeld : ∀ t, curHeldPc (s.pc t) = true → s.cur ≠ none
   curConv : ∀ c, s.cur = some c → curHeldPc (s.pc s.reqT) = true
   finReq : ∀ t, s.kept t = true → s.cbFin t = true → s.stopReq = true
-  unregReq : ∀ t, s.curOp t = .swait → s.kept t = false → (bodyPc (s.pc t) = true ∨ inlPc (s.pc t) = true) →
+  unregReq : ∀ t, isStop (s.curOp t) = true → s.kept t = false → (bodyPc (s.pc t) = true ∨ inlPc (s.pc t) = true) →
     s.stopReq = true
   regLkOk : ∀ t, s.pc t = .sRegLk → s.stopReq = false
-  covered : s.stopReq = true → ∀ t, s.curOp t = .swait → exposed (s.pc t) = true →
+  covered : s.stopReq = true → ∀ t, isStop (s.curOp t) = true → exposed (s.pc t) = true →
     t ∈ s.cbs ∨ (s.cur = some t ∧ popPending (s.pc s.reqT) = true)
   doneOk : s.stopDone = true → s.stopReq = true ∧ s.cbs = [] ∧ s.cur = none
   activeOk : s.stopReq = true → s.stopDone = false → reqPc (s.pc s.reqT) = true
-  sawOk : ∀ t, s.curOp t = .swait → sawStop (s.pc t) = true → s.stopReq = true
-  swRes : ∀ t r, s.curOp t = .swait → resAll (s.pc t) = some r → r = 1 ∨ s.stopReq = true
+  sawOk : ∀ t, s.curOp t = .swait false → sawStop (s.pc t) = true → s.stopReq = true
+  swRes : ∀ t r, s.curOp t = .swait false → resAll (s.pc t) = some r → r = 1 ∨ s.stopReq = true
 
 theorem inv3_init (n : Nat) (f : Bool) : Inv3 (init n f) := by
   refine ⟨?_, ?_, ?_, ?_, ?_, ?_, ?_, ?_, ?_, ?_, ?_, ?_, ?_, ?_, ?_, ?_, ?_, ?_, ?_, ?_⟩ <;>
@@ -126,7 +126,7 @@ theorem Inv3.curNone {s : St} (hi : Inv3 s) (h : curHeldPc (s.pc s.reqT) = false
 /-- Before the stop bit is set, every stop-token waiter past its S1 check has its callback
     linked in the stop state. -/
 theorem Inv3.preLinked {s : St} (hi : Inv3 s) (hq : s.stopReq = false) (u : Nat)
-    (hc : s.curOp u = .swait) (he : exposed (s.pc u) = true) : u ∈ s.cbs := by
+    (hc : isStop (s.curOp u) = true) (he : exposed (s.pc u) = true) : u ∈ s.cbs := by
   have hk : s.kept u = true := by
     cases hk : s.kept u with
     | true => rfl
@@ -150,7 +150,7 @@ set_option maxHeartbeats 1600000
 
 attribute [local grind] holds holdsU noU inQ waitExp needTok b2n isTimed isPred isWait
   isNotify isStop pcOpOk exitPc holdsS dtorPc rmPc bodyPc inlPc reqPc curHeldPc popPending exposed sawStop resAll
-attribute [local grind →] curHeld_req popPending_curHeld exposed_body exposed_holds_or_inQ
+attribute [local grind →] curHeld_req popPending_curHeld exposed_body exposed_holds_or_inQ isStop_facts
 
 set_option hygiene false in
 macro "cv_step3" : tactic => `(tactic| (
@@ -205,6 +205,7 @@ theorem step_inv3_timeout (s s' : St) (t : Nat) (hA : Inv s) (hB : Inv2 s) (hi :
 theorem step_inv3_done (s s' : St) (t : Nat) (hA : Inv s) (hB : Inv2 s) (hi : Inv3 s) (h : step s (.done t) = some s') : Inv3 s' := by cv_step3
 theorem step_inv3_stop0 (s s' : St) (t : Nat) (v : Bool) (hA : Inv s) (hB : Inv2 s) (hi : Inv3 s) (h : step s (.stop0 t v) = some s') : Inv3 s' := by cv_step3
 theorem step_inv3_stop1 (s s' : St) (t : Nat) (v : Bool) (hA : Inv s) (hB : Inv2 s) (hi : Inv3 s) (h : step s (.stop1 t v) = some s') : Inv3 s' := by cv_step3
+theorem step_inv3_stop2 (s s' : St) (t : Nat) (v : Bool) (hA : Inv s) (hB : Inv2 s) (hi : Inv3 s) (h : step s (.stop2 t v) = some s') : Inv3 s' := by cv_step3
 theorem step_inv3_stSeen (s s' : St) (t : Nat) (hA : Inv s) (hB : Inv2 s) (hi : Inv3 s) (h : step s (.stSeen t) = some s') : Inv3 s' := by cv_step3
 theorem step_inv3_stAcq (s s' : St) (t m : Nat) (hA : Inv s) (hB : Inv2 s) (hi : Inv3 s) (h : step s (.stAcq t m) = some s') : Inv3 s' := by cv_step3
 theorem step_inv3_stPush (s s' : St) (t : Nat) (b : Bool) (hA : Inv s) (hB : Inv2 s) (hi : Inv3 s) (h : step s (.stPush t b) = some s') : Inv3 s' := by cv_step3
@@ -302,6 +303,7 @@ theorem step_inv3 (s s' : St) (e : Ev) (hA : Inv s) (hB : Inv2 s) (hi : Inv3 s) 
   | done t => exact step_inv3_done s s' t hA hB hi h
   | stop0 t v => exact step_inv3_stop0 s s' t v hA hB hi h
   | stop1 t v => exact step_inv3_stop1 s s' t v hA hB hi h
+  | stop2 t v => exact step_inv3_stop2 s s' t v hA hB hi h
   | stSeen t => exact step_inv3_stSeen s s' t hA hB hi h
   | stAcq t m => exact step_inv3_stAcq s s' t m hA hB hi h
   | stPush t b => exact step_inv3_stPush s s' t b hA hB hi h
